@@ -489,6 +489,109 @@ fn confirm_in_child(spec: &Spec, tier: Tier, path: &str, limit_s: u64) -> (Strin
     }
 }
 
+/// Build the cargo-fuzz target and run a fixed-work libFuzzer campaign (`-runs=N -seed=S`,
+/// fresh output corpus per job, committed seed corpus as read-only input).  Crashing inputs are
+/// turned into replay streams and confirmed like any other failure.
+fn run_fuzz(spec: &Spec, fz: &FuzzSpec, tier: Tier, seed: u64, violations: &mut Vec<(String, String)>, inconclusive: &mut Vec<String>) -> Json {
+    let t0 = Instant::now();
+    let fuzz_dir = format!("{}/fuzz", VERIF_ROOT);
+    let build = std::process::Command::new("cargo")
+        .args(["+nightly", "fuzz", "build", "--fuzz-dir", &fuzz_dir, fz.target])
+        .env("CARGO_NET_OFFLINE", "true")
+        .stdout(std::process::Stdio::null())
+        .stderr(std::process::Stdio::piped())
+        .output();
+    match build {
+        Ok(o) if o.status.success() => {}
+        Ok(o) => {
+            let err = String::from_utf8_lossy(&o.stderr);
+            inconclusive.push(format!("fuzz target {} did not build: {}", fz.target, err.lines().rev().take(5).collect::<Vec<_>>().join(" | ")));
+            return json!({"target": fz.target, "built": false});
+        }
+        Err(e) => {
+            inconclusive.push(format!("cargo fuzz not available: {}", e));
+            return json!({"target": fz.target, "built": false});
+        }
+    }
+    let bin = format!("{}/target/x86_64-unknown-linux-gnu/release/{}", fuzz_dir, fz.target);
+    let runs = tier.pick(fz.quick_runs, fz.thorough_runs);
+    let work = PathBuf::from(format!("{}/harness/target/fuzz/{}-{}", VERIF_ROOT, fz.target, std::process::id()));
+    let _ = std::fs::remove_dir_all(&work);
+    let seed_corpus = format!("{}/corpus/{}", VERIF_ROOT, fz.target);
+    let mut children = vec![];
+    for j in 0..fz.jobs {
+        let dir = work.join(format!("job{}", j));
+        let corpus = dir.join("corpus");
+        let arts = dir.join("artifacts");
+        let _ = std::fs::create_dir_all(&corpus);
+        let _ = std::fs::create_dir_all(&arts);
+        let mut cmd = std::process::Command::new(&bin);
+        cmd.arg(&corpus);
+        if Path::new(&seed_corpus).is_dir() {
+            cmd.arg(&seed_corpus);
+        }
+        cmd.arg(format!("-runs={}", runs))
+            .arg(format!("-seed={}", (seed.wrapping_mul(1000003).wrapping_add(j as u64) % 0x7fff_ffff) + 1))
+            .arg(format!("-max_len={}", fz.max_len))
+            .arg("-len_control=0")
+            .arg("-timeout=120")
+            .arg("-rss_limit_mb=6000")
+            .arg("-print_final_stats=1")
+            .arg(format!("-artifact_prefix={}/", arts.display()))
+            .env("MALLOC_MMAP_THRESHOLD_", "33554432")
+            .env("ASAN_OPTIONS", "detect_leaks=0:abort_on_error=1")
+            .stdout(std::process::Stdio::null())
+            .stderr(std::fs::File::create(dir.join("stderr.log")).expect("log"));
+        match cmd.spawn() {
+            Ok(c) => children.push((j, dir, c)),
+            Err(e) => inconclusive.push(format!("cannot start fuzz job {}: {}", j, e)),
+        }
+    }
+    let mut executed = 0u64;
+    let mut new_units = 0u64;
+    let mut crashes = 0u64;
+    for (j, dir, mut c) in children {
+        let status = c.wait();
+        let log = std::fs::read_to_string(dir.join("stderr.log")).unwrap_or_default();
+        for line in log.lines() {
+            if let Some(v) = line.strip_prefix("stat::number_of_executed_units:") {
+                executed += v.trim().parse::<u64>().unwrap_or(0);
+            }
+            if let Some(v) = line.strip_prefix("stat::new_units_added:") {
+                new_units += v.trim().parse::<u64>().unwrap_or(0);
+            }
+        }
+        let mut found = false;
+        if let Ok(rd) = std::fs::read_dir(dir.join("artifacts")) {
+            for e in rd.flatten() {
+                let name = e.file_name().to_string_lossy().to_string();
+                if let Ok(bytes) = std::fs::read(e.path()) {
+                    let mut stream = fz.prefix.to_vec();
+                    stream.extend_from_slice(&bytes);
+                    let kind = if name.starts_with("timeout") { "fuzz-timeout" } else if name.starts_with("oom") { "fuzz-oom" } else { "fuzz-crash" };
+                    let p = write_replay(spec.id, kind, &stream);
+                    crashes += 1;
+                    found = true;
+                    violations.push((p, format!("libFuzzer job {} produced artifact {}", j, name)));
+                }
+            }
+        }
+        if !found {
+            if let Ok(s) = status {
+                if !s.success() {
+                    inconclusive.push(format!("fuzz job {} ended with {:?} without an artifact (see {})", j, s, dir.join("stderr.log").display()));
+                    continue;
+                }
+            }
+            let _ = std::fs::remove_dir_all(&dir);
+        }
+    }
+    json!({
+        "engine": "libFuzzer (cargo-fuzz 0.13, ASan)", "target": fz.target, "built": true, "jobs": fz.jobs, "runs_per_job": runs,
+        "executed_units": executed, "new_corpus_units": new_units, "artifacts": crashes, "max_len": fz.max_len, "wall_s": t0.elapsed().as_secs_f64(),
+    })
+}
+
 pub fn supervise(spec: &Spec, tier: Tier, seed: u64) -> i32 {
     let t0 = Instant::now();
     let total = case_budget(spec, tier);
@@ -550,6 +653,14 @@ pub fn supervise(spec: &Spec, tier: Tier, seed: u64) -> i32 {
             } else {
                 inconclusive.push(format!("shard {} restarted too often", i));
             }
+        }
+    }
+
+    // coverage-guided campaign over the same case function
+    let mut fuzz_evidence: Json = Json::Null;
+    if let Some(fz) = &spec.fuzz {
+        if tier == Tier::Thorough || std::env::var_os("VCHECK_FUZZ").is_some() {
+            fuzz_evidence = run_fuzz(spec, fz, tier, seed, &mut violations, &mut inconclusive);
         }
     }
 
@@ -642,6 +753,7 @@ pub fn supervise(spec: &Spec, tier: Tier, seed: u64) -> i32 {
             "known_findings_observed": known_json,
             "worker_processes": nshards,
             "inconclusive_notes": inconclusive,
+            "coverage_guided_campaign": fuzz_evidence,
         },
         "assumptions": spec.assumptions,
         "wall_s": wall,
